@@ -205,9 +205,11 @@ func cmdCheck(prop, tier string, rest []string) int {
 	exit := 0
 	inconclusive := []string{}
 	type pendingViol struct {
-		h    harnessRef
-		v    *sym.Violation
-		path string
+		h               harnessRef
+		v               *sym.Violation
+		path            string
+		stubbed         bool
+		engineConfirmed bool
 	}
 	var toReplay []pendingViol
 	knownPrinted := map[string]bool{}
@@ -269,7 +271,12 @@ func cmdCheck(prop, tier string, rest []string) int {
 			if matched {
 				continue
 			}
-			toReplay = append(toReplay, pendingViol{h: h, v: v})
+			pv := pendingViol{h: h, v: v, stubbed: isStubbed(h)}
+			if keys, concrete := eng.ReplayConcrete(fn, h.Func, v.Model); concrete && keys[k] {
+				pv.engineConfirmed = true
+			}
+			ev.engineReplays++
+			toReplay = append(toReplay, pv)
 		}
 	}
 	// translator validation: replay sample paths natively; the same witnesses
@@ -336,6 +343,9 @@ func cmdCheck(prop, tier string, rest []string) int {
 			// ordinary tapes in one process; alloc/hang tapes each in their own
 			var batch []string
 			for _, i := range idxs {
+				if toReplay[i].stubbed {
+					continue
+				}
 				if k := toReplay[i].v.Kind; k == "assert" || k == "panic" {
 					batch = append(batch, toReplay[i].path)
 				}
@@ -356,7 +366,7 @@ func cmdCheck(prop, tier string, rest []string) int {
 			}
 			for _, i := range idxs {
 				k := toReplay[i].v.Kind
-				if k == "assert" || k == "panic" {
+				if k == "assert" || k == "panic" || toReplay[i].stubbed {
 					continue
 				}
 				to := 120 * time.Second
@@ -379,6 +389,15 @@ func cmdCheck(prop, tier string, rest []string) int {
 				r, ok := results[pv.path]
 				ev.replays++
 				rep, why := reproduced(pv.v.Kind, pv.v.ID, r, ok, raws[pv.path])
+				if pv.stubbed {
+					// environment functions are stubbed in this harness: no native
+					// run exists; the counterexample is re-executed concretely in
+					// the interpreter instead
+					rep = pv.engineConfirmed
+					why = "harness stubs environment functions (no native replay); counterexample re-executed concretely in the interpreter: confirmed=" + fmt.Sprint(pv.engineConfirmed)
+				} else if rep {
+					why += fmt.Sprintf(" (concrete re-execution in the interpreter confirmed=%v)", pv.engineConfirmed)
+				}
 				if rep {
 					fmt.Printf("VIOLATION property=%s replay=%s\n", prop, pv.path)
 					fmt.Printf("  harness=%s kind=%s %s\n  site=%s `%s`\n  native: %s\n", pv.h.Func, pv.v.Kind, pv.v.Msg, pv.v.Site, pv.v.SrcText, why)
@@ -475,27 +494,28 @@ func cmdReplay(path string) int {
 // evidence
 
 type evidence struct {
-	prop, tier   string
-	seed         int
-	harnesses    []map[string]interface{}
-	paths        int
-	steps        int64
-	obligations  int
-	discharged   int
-	queries      int
-	solverS      float64
-	loadS        float64
-	wall         float64
-	replays      int
-	violations   int
-	nontrivial   int
-	samples      []interface{}
-	funcs        map[string]bool
-	cuts         map[string]bool
-	knownMatched []string
-	inconclusive []string
-	unknown      int
-	samplesOK    int
+	prop, tier    string
+	seed          int
+	harnesses     []map[string]interface{}
+	paths         int
+	steps         int64
+	obligations   int
+	discharged    int
+	queries       int
+	solverS       float64
+	loadS         float64
+	wall          float64
+	replays       int
+	violations    int
+	nontrivial    int
+	samples       []interface{}
+	funcs         map[string]bool
+	cuts          map[string]bool
+	knownMatched  []string
+	inconclusive  []string
+	unknown       int
+	samplesOK     int
+	engineReplays int
 }
 
 func newEvidence(prop, tier string, seed int) *evidence {
@@ -588,7 +608,8 @@ func (e *evidence) write() error {
 			"bound_cuts":                    cuts,
 			"harnesses":                     e.harnesses,
 			"known_findings_matched":        e.knownMatched,
-			"translator_validation_paths_replayed_ok": e.samplesOK,
+			"translator_validation_paths_replayed_ok":   e.samplesOK,
+			"counterexamples_reexecuted_in_interpreter": e.engineReplays,
 			"inconclusive": e.inconclusive,
 			"exhaustive":   false,
 			"explanation":  "bounded symbolic execution of /repo's SSA (regenerated on this run) with z3; every assertion query is the negated property under the path condition",
@@ -623,4 +644,27 @@ func sameSet(a, b []string) bool {
 		}
 	}
 	return true
+}
+
+// isStubbed: the harness source carries a `// vh:stubbed` line in the function body.
+func isStubbed(h harnessRef) bool {
+	b, err := os.ReadFile(h.File)
+	if err != nil {
+		return false
+	}
+	lines := strings.Split(string(b), "\n")
+	inFn := false
+	for _, l := range lines {
+		if strings.HasPrefix(l, "func "+h.Func+"()") {
+			inFn = true
+			continue
+		}
+		if inFn && strings.HasPrefix(l, "}") {
+			break
+		}
+		if inFn && strings.Contains(l, "// vh:stubbed") {
+			return true
+		}
+	}
+	return false
 }
